@@ -561,14 +561,13 @@ zix_path_lexically_relative(ZixAllocator* const allocator,
     offset = zix_path_append(rel, offset, "..", 2U);
   }
 
-  const char path_last = path[path_len - 1U];
   if (a.range.begin < path_len) {
     // Copy suffix from path (from `a` to the end)
     const size_t suffix_len = path_len - a.range.begin;
     offset = zix_path_append(rel, offset, path + a.range.begin, suffix_len);
-  } else if (n_up && path_len > 1 && is_dir_sep(path_last)) {
+  } else if (n_up && path_len > 1 && is_dir_sep(path[path_len - 1U])) {
     // Copy trailing directory separator from path
-    rel[offset++] = path_last;
+    rel[offset++] = path[path_len - 1U];
   }
 
   rel[offset++] = '\0';
